@@ -249,6 +249,27 @@ def check_solved(spec):
     return m, bad
 
 
+def check_solved_with_heuristic(spec, heuristic):
+    """the same model really solved WITH a dimension-reduction heuristic (the real CvxpyWrapper.solve runs several times):
+    what the objects and PEP.residual expose afterwards must still be the certificate of the ORIGINAL problem -- our own
+    residual of the identity over all keys stays at solver accuracy and the returned value is its constant (seed C01-11:
+    the residual overwritten by the Gram multiplier of the heuristic problem).  The raw duals of wrapper.prob belong to
+    the heuristic problem then, so no stationarity residual is available: fixed tolerance 1e-3 x scale."""
+    pep, val = L.solve_real(spec, heuristic=heuristic)
+    m = L.measure_certificate(pep, val)
+    scale = 1.0 + abs(m["returned"])
+    bad = []
+    if pep.all_optimal:
+        if m["identity_residual"] > 1e-3 * scale:
+            bad.append("identity-residual-exceeds-tolerance-after-heuristic")
+        if abs(m["tau_ours"] - m["returned"]) > 1e-3 * scale:
+            bad.append("returned-value-is-not-the-constant-of-the-identity-after-heuristic")
+        if m["min_eigenvalue"] < -1e-3 * scale:
+            bad.append("multiplier-matrix-not-psd-after-heuristic")
+    m["heuristic"] = heuristic
+    return m, bad
+
+
 def correspondence_scs(tier, seed):
     rng = random.Random(seed * 7717 + 3)
     n = 15 if tier == "quick" else 120
@@ -256,6 +277,20 @@ def correspondence_scs(tier, seed):
     problems, samples, kkt = [], [], []
     hist = dict(lmi={}, family={}, steps={}, asymmetric=0)
     nontrivial = 0
+    nh = 4 if tier == "quick" else 24
+    worst_h = 0.0
+    for k, spec in enumerate(specs[3:3 + nh]):
+        h = ["trace", "logdet1"][k % 2]
+        try:
+            mh, badh = check_solved_with_heuristic(spec, h)
+        except Exception as e:
+            problems.append(dict(kind="solve-raised", solved_spec=spec, heuristic=h, error=repr(e)[:300]))
+            continue
+        worst_h = max(worst_h, mh["identity_residual"])
+        for kind in badh:
+            problems.append(dict(kind=kind, solved_spec=spec, heuristic=h, measured=mh))
+    hist["solved_with_heuristic"] = nh
+    hist["max_identity_residual_after_heuristic"] = float("%.3g" % worst_h)
     for spec in specs:
         try:
             m, bad = check_solved(spec)
